@@ -80,14 +80,21 @@ Record argw_site := {
   aw_handler : bool    (* a handle* / finalise* method of NetworkBuilder, DefaultNetworkHandler or a class derived from them *)
 }.
 
+(* iteration over a SET of ids whose order reaches an ordered container of the document (for x in by_id.keys() - present:
+   lst.append(..)).  The hashes of str are randomised per process (PYTHONHASHSEED): set order is process state, not input *)
+Record setorder_site := { so_module : string; so_func : string; so_expr : string }.
+
 Record state_table := {
   st_defaults : list default_site;
   st_fields : list field_site;
   st_globals : list global_site;
   st_classmeta : list meta_site;
   st_process : list proc_site;
-  st_argwrites : list argw_site
+  st_argwrites : list argw_site;
+  st_setorder : list setorder_site
 }.
+
+Definition set_iteration_sites (t : state_table) : list setorder_site := st_setorder t.
 
 Definition is_nil {A} (l : list A) : bool := match l with [] => true | _ => false end.
 
